@@ -31,7 +31,7 @@ STRATEGIES = {
     "jit": {"use_tf_function": True, "jit_compile": True},
 }
 TRACED = ("tf_function", "tf_function_noid", "jit")
-OPS = ["set_params", "eval", "eval", "eval_new_object", "select_and_back", "select", "reset", "coords", "mask", "nll", "nll", "toy_loop"]
+OPS = ["set_params", "eval", "eval", "eval_new_object", "select_and_back", "select", "reset", "coords", "mask", "nll", "nll", "toy_loop", "nll_fault", "iterate_alone"]
 
 RULE = (
     "sessions are generated from the seed: card x strategy option set x 3..8 operations applied in lock-step to a default eager reference model "
@@ -113,12 +113,14 @@ def generate(job):
         op = {"k": k, "i": ro.randrange(1000), "seed": ro.randrange(1 << 30), "d": ro.choice(["A", "A", "B"])}
         if k == "coords":
             op["to"] = ro.choice(["xy", "rp"])
-        if k in ("nll", "toy_loop"):
+        if k in ("nll", "toy_loop", "nll_fault", "iterate_alone"):
             op["batch"] = ro.choice([65000, 3, 4])
+        if k == "nll_fault":
+            op["pos"] = ro.choice([50, 400, 2000, 6000, 15000, 40000])
         if k == "toy_loop":
             op["reuse"] = ro.chance(0.6)
         ops.append(op)
-    return {"kind": "strategy", "card": card, "strategy": strategy, "nA": rm.choice([6, 9]), "nB": rm.choice([7, 12]), "data_seed": rm.randrange(1 << 30), "param_seed": rm.randrange(1 << 30), "ops": ops}
+    return {"kind": "strategy", "card": card, "strategy": strategy, "bg": rm.chance(0.4), "batch": rm.choice([65000, 3, 4]), "nA": rm.choice([6, 9]), "nB": rm.choice([7, 12]), "data_seed": rm.randrange(1 << 30), "param_seed": rm.randrange(1 << 30), "ops": ops}
 
 
 # ---------------------------------------------------------------------------------- strategy sessions
@@ -143,6 +145,8 @@ class Session:
         self.samp.set_params({k: float(v) for k, v in self.ramp.get_params().items()})
         with rng_seam(spec["data_seed"]):
             self.p = {"A": self.ref.generate_phsp_p(spec["nA"]), "B": self.ref.generate_phsp_p(spec["nB"])}
+            if spec.get("bg"):
+                self.p["G"] = self.ref.generate_phsp_p(max(2, spec["nA"] // 2))
         self.Dr = {k: self.make(self.ref, v) for k, v in self.p.items()}
         self.Ds = {k: self.make(self.sut, v) for k, v in self.p.items()}
         self.nchains = len(list(self.ramp.decay_group.chains))
@@ -233,14 +237,25 @@ class Session:
             self.do_nll(op, fresh=self.fcns is None)
         elif k == "toy_loop":
             self.do_toy_loop(op)
+        elif k == "nll_fault":
+            self.do_nll_fault(op)
+        elif k == "iterate_alone":
+            # a sample is batched on its own (e.g. a batch-wise density evaluation) before / between FCN uses
+            from tf_pwa.data import batch_call
+
+            b = self.spec.get("batch") or op.get("batch", 3)
+            got = batch_call(self.samp, self.Ds["A"], batch=b)
+            self.same(got, self.ramp.pdf(self.Dr["A"]), "density", "batch_call(model, data, batch=%d)" % b, 1e-9)
         else:
             raise ValueError(k)
         self.log.state(self.spec["strategy"], k)
 
     def build_fcns(self, op):
-        batch = op.get("batch", 65000)
-        fr = self.ref.get_fcn([[self.Dr["A"]], [self.Dr["B"]], None, None], batch=batch)
-        fs = self.sut.get_fcn([[self.Ds["A"]], [self.Ds["B"]], None, None], batch=batch)
+        batch = self.spec.get("batch") or op.get("batch", 65000)  # one batch size per session (iterate_alone uses it too)
+        bgr = [self.Dr["G"]] if "G" in self.Dr else None
+        bgs = [self.Ds["G"]] if "G" in self.Ds else None
+        fr = self.ref.get_fcn([[self.Dr["A"]], [self.Dr["B"]], bgr, None], batch=batch)
+        fs = self.sut.get_fcn([[self.Ds["A"]], [self.Ds["B"]], bgs, None], batch=batch)
         return fr, fs
 
     def do_nll(self, op, fresh=False):
@@ -257,6 +272,38 @@ class Session:
         self.same(np.array(gs), np.array(gr), "nll-gradient", "nll_grad", 1e-7)
         if "lazy_call" not in STRATEGIES[self.spec["strategy"]]:  # the library itself skips fcn() for lazy data (print_init_nll)
             self.same(float(fs({})), float(fr({})), "nll", "fcn()", 1e-8)
+
+    def do_nll_fault(self, op):
+        """an evaluation of the likelihood is interrupted by an exception (Ctrl-C / failing kernel analogue) at a
+        seeded Python line inside tf_pwa; the SAME FCN is then used again and must still agree with the reference"""
+        from sim.seams import InjectedFault, InjectedInterrupt, LineTracer
+
+        if self.ramp.decay_group.not_full:
+            self.ramp.set_used_chains(list(range(self.nchains)))
+            self.samp.set_used_chains(list(range(self.nchains)))
+        if self.fcns is None:
+            self.fcns = self.build_fcns(op)
+        fr, fs = self.fcns
+        tr = LineTracer(fire_at=op.get("pos", 2000), exc_type=InjectedInterrupt if op.get("pos", 0) % 3 == 0 else InjectedFault)
+        try:
+            with tr:
+                fs.nll_grad({})
+        except (InjectedFault, InjectedInterrupt):
+            self.log.count("fault.likelihood_evaluation_interrupted")
+        except Exception as e:
+            import traceback
+
+            tb = traceback.extract_tb(e.__traceback__)
+            if "/verif/" in tb[-1].filename:
+                raise
+            self.log.ev("nll-fault-raised", err=type(e).__name__)
+        import sys
+
+        sys.settrace(None)
+        self.changed += 1
+        # selection must be intact for the comparison (a fault may interrupt nothing that touches it; C17 owns that)
+        self.samp.set_used_chains(list(range(self.nchains)))
+        self.do_nll(op)
 
     def do_toy_loop(self, op):
         """drop the FCNs, draw different toys, build new FCNs - the cached likelihood models key their
